@@ -157,15 +157,80 @@ Definition api_step (nglob t : nat) (c : api_call) : step :=
           (filter (c_wsel c) (own_locs t (c_inst c)))
           (c_sem c).
 
-Fixpoint api_threads (nglob t : nat) (p : list (list api_call)) : program :=
+(* a program built from per-call steps mk t c (thread t performs call c) *)
+Fixpoint call_threads (mk : nat -> api_call -> step) (t : nat) (p : list (list api_call)) : program :=
   match p with
   | [] => []
-  | th :: r => map (api_step nglob t) th :: api_threads nglob (S t) r
+  | th :: r => map (mk t) th :: call_threads mk (S t) r
   end.
 
-Definition api_program (nglob : nat) (p : list (list api_call)) : program := api_threads nglob 0 p.
+Definition call_program (mk : nat -> api_call -> step) (p : list (list api_call)) : program := call_threads mk 0 p.
+
+Definition api_program (nglob : nat) (p : list (list api_call)) : program := call_program (api_step nglob) p.
+
+(* the footprint of the step that stands for call c of thread t stays inside what the
+   inventory allows: writes only its own instance and its own thread-local objects,
+   reads those, process-wide objects and the environment *)
+Definition within_inventory (nglob : nat) (mk : nat -> api_call -> step) : Prop :=
+  forall t c,
+    (forall l, In l (writes (mk t c)) -> In l (own_locs t (c_inst c))) /\
+    (forall l, In l (reads (mk t c)) -> In l (own_locs t (c_inst c)) \/ In l (shared_locs nglob)).
 
 (* each instance is used by one thread only *)
 Definition instances_exclusive (p : list (list api_call)) : Prop :=
   forall t u a b i, t <> u -> In a (nth t p []) -> In b (nth u p []) ->
     c_inst a = Some i -> c_inst b = Some i -> False.
+
+(* ------------------------------------------------------------------ executable checks (examples) *)
+Fixpoint leqb {A} (eqb : A -> A -> bool) (a b : list A) : bool :=
+  match a, b with
+  | [], [] => true
+  | x :: a', y :: b' => eqb x y && leqb eqb a' b'
+  | _, _ => false
+  end.
+
+Definition touches_b (th : thread) (l : loc) : bool := existsb (fun st => mem l (footprint st)) th.
+
+(* does trace tr give every thread of p its solo observations and solo final values (on locs)? *)
+Definition check_trace (p : program) (locs : list loc) (s0 : state) (tr : list event) : bool :=
+  forallb (fun t =>
+    leqb (leqb Z.eqb) (obs_of t tr s0) (obs_of t (solo t (nth t p [])) s0) &&
+    forallb (fun l => if touches_b (nth t p []) l
+                      then Z.eqb (run tr s0 l) (run (solo t (nth t p [])) s0 l) else true) locs)
+    (seq 0 (length p)).
+
+Local Open Scope Z_scope.
+
+(* a 2-thread, 2-instance program, 3 steps per thread:
+     create   : Inst i 0 := k
+     compress : reads Inst i 0, the const table Glob 0, the env, TLS simd word;  writes Inst i 3 (output), TlsL t 1
+     failing  : reads Inst i 0; writes Inst i 1 (instance errStr), Inst i 2, TlsL t 0 (thread-local errStr) *)
+Definition ex_thread (t i : nat) (k : Z) : thread :=
+  [ mk_step [] [Inst i 0] (fun _ _ => k);
+    mk_step [Inst i 0; Glob 0; Env; TlsL t 1] [Inst i 3; TlsL t 1]
+            (fun vs l => match l with Inst _ _ => fold_right Z.add 0 vs * 3 + k | _ => 1 end);
+    mk_step [Inst i 0; Inst i 3] [Inst i 1; Inst i 2; TlsL t 0]
+            (fun vs l => match l with Inst _ 1 => fold_right Z.add 5 vs | Inst _ _ => 1 | _ => fold_right Z.add 7 vs end) ].
+
+Definition ex_program : program := [ex_thread 0 0 11; ex_thread 1 1 23].
+
+Definition ex_locs : list loc :=
+  [Inst 0 0; Inst 0 1; Inst 0 2; Inst 0 3; Inst 1 0; Inst 1 1; Inst 1 2; Inst 1 3;
+   TlsL 0 0; TlsL 0 1; TlsL 1 0; TlsL 1 1; Glob 0; Env].
+
+Definition ex_s0 : state :=
+  fun l => match l with Glob g => 100 + Z.of_nat g | Env => 42 | TlsL _ _ => -1 | Inst _ _ => 0 end.
+
+Definition ex_traces : list (list event) :=
+  merges2 (solo 0 (nth 0 ex_program [])) (solo 1 (nth 1 ex_program [])).
+
+(* the same program with a process-wide cache (Glob 1) updated by the compress step:
+   the hypotheses fail and so does the conclusion *)
+Definition bad_thread (t i : nat) (k : Z) : thread :=
+  [ mk_step [] [Inst i 0] (fun _ _ => k);
+    mk_step [Inst i 0; Glob 1] [Inst i 3; Glob 1]
+            (fun vs l => match l with Glob _ => fold_right Z.add 1 vs | _ => fold_right Z.add 0 vs end);
+    mk_step [Inst i 3] [Inst i 1] (fun vs _ => fold_right Z.add 0 vs) ].
+Definition bad_program : program := [bad_thread 0 0 11; bad_thread 1 1 23].
+Definition bad_traces : list (list event) :=
+  merges2 (solo 0 (nth 0 bad_program [])) (solo 1 (nth 1 bad_program [])).
